@@ -92,7 +92,8 @@ Definition int_boundsR (eps : R) (r : irangeR) : option (R * R) := cont_boundsR 
 
 (* samplers: random_state.uniform(a, b) = a + (b - a) * u.
    Float._LogUniform / _ReverseLogUniform: np.clip(from(uniform(to lower, to upper)), lower, upper);
-   Integer._LogUniform: np.round(exp(uniform(log lower, log upper))), then cast = int(round(.)) *)
+   Integer._LogUniform: np.round(exp(uniform(log lower, log upper))) (the value before the clip of
+   the code, which does nothing in real arithmetic), then cast = int(round(.)) *)
 Definition sample_float_scR (sc : scalingR) (lo hi u : R) : R :=
   let a := to_intR sc lo in let b := to_intR sc hi in
   Rclip (from_intR sc (a + (b - a) * u)) lo hi.
